@@ -54,6 +54,11 @@ type Req struct {
 	// CL: the Content-Length the request announces, if it differs from the body's real length
 	// (a peer that writes its own HTTP framing can claim anything)
 	CL *int64 `json:"cl,omitempty"`
+	// HTTP: the generated HTTP layer of the request (cfg_test.go): method, request-target, version, header lines,
+	// remote address as the peer controls them; nil = the historical "POST / without header lines" (or, under a
+	// configured listener, the shape its filters demand).  HLabels: the generator classes it was drawn from.
+	HTTP    *agx.HTTPReq `json:"http,omitempty"`
+	HLabels []string     `json:"hlabels,omitempty"`
 }
 
 type Case struct {
@@ -72,6 +77,11 @@ type Case struct {
 	// Scale: the bulk of the case (scale_test.go): a threshold-adjacent number of callbacks / tasks /
 	// sessions of one family, sent before, in the middle of and after the ordinary requests
 	Scale *Scale `json:"scale,omitempty"`
+	// Cfg: the generated configuration of the HTTP listener (nil = the historical default: nothing configured);
+	// Env: the environment of the case (time zone, descriptor limit, agent kill date / working hours) - cfg_test.go
+	Cfg     *agx.HTTPOpts `json:"cfg,omitempty"`
+	CfgNote []string      `json:"cfg_note,omitempty"`
+	Env     *Env          `json:"env,omitempty"`
 }
 
 // family of a layout: the state it works on
@@ -348,6 +358,16 @@ func mutateBody(t *rapid.T, body []byte, lenPos []int, gentle bool) ([]byte, str
 // ---------------------------------------------------------------- generator
 
 func genReq(t *rapid.T, c Case, idx int) Req {
+	r := genReq0(t, c, idx)
+	// two requests in five carry a generated HTTP layer (cfg_test.go); it has Content-Length classes of its own
+	if rapid.IntRange(0, 4).Draw(t, "http-layer?") < 2 {
+		r.HTTP, r.HLabels = genHTTP(t, c.Cfg, r.Raw)
+		r.CL = nil
+	}
+	return r
+}
+
+func genReq0(t *rapid.T, c Case, idx int) Req {
 	r := Req{Class: rapid.SampledFrom([]string{"A", "B", "B", "B", "B", "C"}).Draw(t, "class")}
 	r.Via = rapid.SampledFrom([]string{"http", "http", "http", "ext"}).Draw(t, "via")
 	r.Twice = rapid.IntRange(0, 9).Draw(t, "twice") == 0
@@ -540,6 +560,7 @@ func gen(t *rapid.T) Case {
 			c.DlSizes = append(c.DlSizes, rapid.SampledFrom([]uint64{100, 100, 0, 1, 5, 0x7fffffffffffffff, 0x8000000000000000, 0xffffffffffffffff, 0x100000000}).Draw(t, "dlsize"))
 		}
 	}
+	c.Cfg, c.CfgNote = genCfg(t)
 	n := rapid.IntRange(1, 4).Draw(t, "nreqs")
 	if c.NAgents > 0 && rapid.Bool().Draw(t, "focused") {
 		c.Focus = rapid.SampledFrom(famNames).Draw(t, "focus")
@@ -562,6 +583,7 @@ func gen(t *rapid.T) Case {
 	if c.Scale != nil {
 		placeScale(t, &c)
 	}
+	c.Env = genEnv(t, len(c.Reqs))
 	return c
 }
 
@@ -600,11 +622,20 @@ func snapshot(w *agx.World) string {
 }
 
 func check(c Case) *core.Violation {
+	if c.Env != nil && c.Env.FDAt >= 0 && !childFD.on {
+		// a request handled without free descriptors may end the process: the case runs in a child of its own
+		return runInChild(c)
+	}
+	if c.Env != nil && c.Env.Zone != "" {
+		old := time.Local
+		time.Local = zoneOf(c.Env.Zone)
+		defer func() { time.Local = old }()
+	}
 	var prof *profile.Profile
 	if c.Service {
 		prof = tsx.BasicProfile(map[string]string{"op": "pw"}, &profile.ServiceConfig{Endpoint: "svc", Password: "svcpw"})
 	}
-	w, err := agx.NewWorld(prof)
+	w, err := agx.NewWorldOpts(prof, c.Cfg)
 	if err != nil {
 		panic("infrastructure: " + err.Error())
 	}
@@ -620,6 +651,9 @@ func check(c Case) *core.Violation {
 	for i := 0; i < c.NAgents; i++ {
 		k, iv := keyOf(i, c.ZeroKey && i == 1)
 		s := agx.Sess{ID: agentIDs[i], Key: k, IV: iv, Meta: agx.DefaultMeta(agentIDs[i])}
+		if c.Env != nil && c.Env.Meta != "" {
+			applyMeta(&s.Meta, c.Env.Meta)
+		}
 		if code, _ := w.Register(s); code != 200 {
 			return core.V("setup|register-refused", "registration refused: %d", code)
 		}
@@ -702,6 +736,23 @@ func doReq(w *agx.World, ri int, r Req) *core.Violation {
 		if len(r.Raw) >= 12 && binary.BigEndian.Uint32(r.Raw[4:8]) == demonref.Magic && w.Agent(binary.BigEndian.Uint32(r.Raw[8:12])) != nil {
 			invalid = false
 		}
+		// the generated HTTP layer: what net/http's reader delivers of it, and what HEAD's front end does with that
+		var prep agx.Prepared
+		useHTTP, emptyPath := r.HTTP != nil, false
+		if useHTTP {
+			prep = r.HTTP.Prepare(r.Raw)
+			if prep.Req == nil {
+				continue // net/http answers this one by itself: nothing reaches the listener
+			}
+			emptyPath = prep.Req.URL.Path == "" // (gin rewrites the path before it redirects)
+			if r.Via != "ext" && (!routed(prep.Req) || !passesFilters(w.Opts, prep.Req)) {
+				// not handed to request() by the router, or refused by the configured header / URI / user-agent filter
+				invalid = true
+			} else if !bytes.Equal(prep.BodySeen, r.Raw) {
+				// the announced framing (Content-Length, Transfer-Encoding) delivers other bytes than the ones classified
+				invalid = false
+			}
+		}
 		var before string
 		if invalid {
 			before = snapshot(w)
@@ -709,19 +760,33 @@ func doReq(w *agx.World, ri int, r Req) *core.Violation {
 		var code int
 		lbl := cls(r)
 		v := core.WithWatchdog(30*time.Second, "request|"+lbl, func() *core.Violation {
-			if r.Via == "ext" {
-				code, _ = w.PostExtCL(r.Raw, r.CL)
+			send := func() {
+				switch {
+				case useHTTP:
+					code = w.Send(prep, r.Via == "ext").Code
+				case r.Via == "ext":
+					code, _ = w.PostExtCL(r.Raw, r.CL)
+				default:
+					code, _ = w.PostCL(r.Raw, r.CL)
+				}
+			}
+			if childFD.on && childFD.at == ri && rep == 0 {
+				withFDLimit(childFD.spare, send)
 			} else {
-				code, _ = w.PostCL(r.Raw, r.CL)
+				send()
 			}
 			return nil
 		})
 		if v != nil {
-			v.Msg = fmt.Sprintf("request %d (%s, %d bytes, via %s): %s", ri, r.Note, len(r.Raw), r.Via, v.Msg)
+			v.Msg = fmt.Sprintf("request %d (%s, %d bytes, via %s%s): %s", ri, r.Note, len(r.Raw), r.Via, httpNote(r), v.Msg)
 			return v
 		}
-		if code != 200 && code != 404 {
-			return core.V("status|"+lbl, "request %d (%s): HTTP status %d, expected the protocol reply (200) or the decoy 404", ri, r.Note, code)
+		okStatus := code == 200 || code == 404
+		if useHTTP && r.Via != "ext" && emptyPath && (code == 301 || code == 307) {
+			okStatus = true // gin's own redirect for an empty path (absolute-form target without a path): HEAD's router answers that
+		}
+		if !okStatus {
+			return core.V("status|"+lbl, "request %d (%s%s): HTTP status %d, expected the protocol reply (200) or the decoy 404", ri, r.Note, httpNote(r), code)
 		}
 		for _, a := range w.TS.Agents.Agents {
 			if a == nil {
@@ -739,8 +804,8 @@ func doReq(w *agx.World, ri int, r Req) *core.Violation {
 			}
 		}
 		if invalid {
-			if code != 404 {
-				return core.V("invalid-traffic|answered|"+lbl, "request %d (%s) is not valid Demon / third-party traffic but got status %d", ri, r.Note, code)
+			if code == 200 { // (404, or gin's redirect for an empty path: see above)
+				return core.V("invalid-traffic|answered|"+lbl, "request %d (%s%s) is not valid Demon / third-party traffic for this listener but got status %d", ri, r.Note, httpNote(r), code)
 			}
 			if after := snapshot(w); after != before {
 				return core.V("invalid-traffic|state-changed|"+lbl, "request %d (%s) is not valid Demon / third-party traffic but changed state:\n--- before\n%.1500s\n--- after\n%.1500s", ri, r.Note, before, after)
@@ -800,6 +865,7 @@ func classify(c Case) core.Class {
 		cl.Labels = append(cl.Labels, scaleLabels(c)...)
 		cl.NonTrivial = true // the bulk is valid traffic of a registered session by construction
 	}
+	cl.Labels = append(cl.Labels, cfgLabels(c)...)
 	last := c.Reqs[len(c.Reqs)-1]
 	cl.Fingerprint = fmt.Sprintf("%s|n=%d|p=%v|s=%v|d=%v|len=%d", cls(last), c.NAgents, c.Pivot, c.Service, c.Download, bucket(len(last.Raw)))
 	if c.Scale != nil {
@@ -825,11 +891,12 @@ var _ = bytes.Equal
 func TestC01(t *testing.T) {
 	core.Run(t, core.Spec[Case]{
 		Property: "C01", Sub: "a",
-		Rule: "state (0-3 registered agents incl. id >= 2^31 and a zero-key agent, SMB child, three open downloads whose announced sizes include 0, 2^63 and 2^64-1, Service block on/off, five outstanding request ids on every agent) built through the real endpoints, then 1-4 requests (2-6 in the half of the cases that focus on one family of layouts - downloads, sockets, tokens, jobs, ... - so that one handler sees a run of related messages) via the HTTP listener engine or the External-C2 handler: one request in twenty announces a Content-Length that is not its body's length (0, -1, 1, 2^20 ... 2^63-1); A random bytes (all lengths 0-24, up to 300); B batches of 1-3 grammar-valid callbacks drawn from 140 command/sub-command layouts of TaskDispatch, each corrupted by integer fields also drawn from the keys of the lookup tables TaskDispatch indexes (win32.Protections, InjectErrors, Win32ErrorCodes as found in the tree under test); truncation / length-prefix rewrite / appended bytes / bit flip, plus SMB_CONNECT with a (cut / mismatching) child registration, relayed SMB_COMMAND packages, CHECKIN metadata, self-nested pivot packages to depth 400, header corruptions (magic, unknown id, id 0, other key, header command, cut, size); C registrations (valid, truncated, id mismatch, existing id, zero key, trailing bytes). Oracle: no panic, returns within 30 s, status 200/404, all agent mutexes free, traffic classified invalid by the harness gets 404 and leaves sessions/queues/DB/loot identical. Non-trivial: a class B/C request that passes header, magic and session lookup; distinct = (class:first layout, #agents, pivot, service, download, length bucket) SCALE (scale_test.go; 3 cases in 128, labels scale:<what>:<bucket>): the case carries a BULK of N objects of one kind for one session, N drawn from the threshold-adjacent pool {63,64,65, 127,128,129, 255,256,257, 511,512,513, 999,1000,1001, 1023,1024,1025, 2047,2048,2049, 4095,4096,4097, 8191,8192,8193} (three bulks in eight stop at 999-1025), with N consecutive distinct ids starting at 0, 1, 70, 0x1000, 2^31-256 or 2^32-256 (crossing the sign bit / wrapping), pushed into one of the tables the teamserver keeps per session by the callback (or the operator-side call) that adds to it: portfwd = SOCKET_COMMAND_OPEN (Agent.PortFwds, always accepted; up to 8193), socks = SocksClientAdd as the socks accept loop calls it, then CONNECT ok / CONNECT+READ / CONNECT refused / CONNECT+CLOSE callbacks for every id (Agent.SocksCli; up to 4097), download = FS download-open or BEACON CALLBACK_FILE under an outstanding request id (Agent.Downloads, one file each; up to 4097), links = DEMON_PIVOT_SMB_CONNECT with the registration of one more SMB child (Pivots.Links + session table; up to 1025), bof = Agent.TaskPrepare(COMMAND_INLINEEXECUTE, HasCallback) + AddJobToQueue as DispatchEvent does, then BEACON output + RAN_OK / COULD_NOT_RUN for every task (BofCallbacks, Tasks, JobQueue incl. mem-file chunks; up to 2049), jobs = the same with sleep tasks and their callbacks (Tasks, JobQueue; up to 2049), sessions = N DEMON_INIT registrations with distinct agent ids (session table; up to 1025), callbacks = one generated layout of the focus family repeated N times, one of its free integer fields (preferably the first = the object id) taking the N ids, every copy answering an outstanding request id of its own (N outstanding ids through AddRequest) or the shared one (up to 4097); the quick tier cuts the pool at what one case affords (8193 only for table appends; ~1 ms per session / link), the thorough tier goes one step further up (8193 / 4097 / 2049). The bulk is cut into requests of PerReq callbacks: all N in ONE request (64-8193 sub-packages in a batch), one per request (up to 1025 requests in the case) or a threshold-adjacent number; via the HTTP engine or External-C2; one in four of the bulks of a state with an SMB child belongs to the child and arrives relayed inside SMB_COMMAND packages of agent 0. The 2-6 ordinary requests of the case focus on the family of the bulk and are placed before it, between its two halves and after it. Oracle at scale: every bulk request returns within 30 s with 200/404 and without panic; at the checkpoints (after the first half, when the count is reached, after ONE MORE object of the same kind sent through the ordinary path with the whole oracle, and after the closing plain check-ins) no session entry is nil and PortFwdsMtx, SocksCliMtx, SocksSvrMtx and QueueMtx of every session can be taken; the closing check-in of the session (which exists) must get the protocol reply 200.",
+		Rule: "state (0-3 registered agents incl. id >= 2^31 and a zero-key agent, SMB child, three open downloads whose announced sizes include 0, 2^63 and 2^64-1, Service block on/off, five outstanding request ids on every agent) built through the real endpoints, then 1-4 requests (2-6 in the half of the cases that focus on one family of layouts - downloads, sockets, tokens, jobs, ... - so that one handler sees a run of related messages) via the HTTP listener engine or the External-C2 handler: one request in twenty announces a Content-Length that is not its body's length (0, -1, 1, 2^20 ... 2^63-1); A random bytes (all lengths 0-24, up to 300); B batches of 1-3 grammar-valid callbacks drawn from 140 command/sub-command layouts of TaskDispatch, each corrupted by integer fields also drawn from the keys of the lookup tables TaskDispatch indexes (win32.Protections, InjectErrors, Win32ErrorCodes as found in the tree under test); truncation / length-prefix rewrite / appended bytes / bit flip, plus SMB_CONNECT with a (cut / mismatching) child registration, relayed SMB_COMMAND packages, CHECKIN metadata, self-nested pivot packages to depth 400, header corruptions (magic, unknown id, id 0, other key, header command, cut, size); C registrations (valid, truncated, id mismatch, existing id, zero key, trailing bytes). Oracle: no panic, returns within 30 s, status 200/404, all agent mutexes free, traffic classified invalid by the harness gets 404 and leaves sessions/queues/DB/loot identical. Non-trivial: a class B/C request that passes header, magic and session lookup; distinct = (class:first layout, #agents, pivot, service, download, length bucket) SCALE (scale_test.go; 3 cases in 128, labels scale:<what>:<bucket>): the case carries a BULK of N objects of one kind for one session, N drawn from the threshold-adjacent pool {63,64,65, 127,128,129, 255,256,257, 511,512,513, 999,1000,1001, 1023,1024,1025, 2047,2048,2049, 4095,4096,4097, 8191,8192,8193} (three bulks in eight stop at 999-1025), with N consecutive distinct ids starting at 0, 1, 70, 0x1000, 2^31-256 or 2^32-256 (crossing the sign bit / wrapping), pushed into one of the tables the teamserver keeps per session by the callback (or the operator-side call) that adds to it: portfwd = SOCKET_COMMAND_OPEN (Agent.PortFwds, always accepted; up to 8193), socks = SocksClientAdd as the socks accept loop calls it, then CONNECT ok / CONNECT+READ / CONNECT refused / CONNECT+CLOSE callbacks for every id (Agent.SocksCli; up to 4097), download = FS download-open or BEACON CALLBACK_FILE under an outstanding request id (Agent.Downloads, one file each; up to 4097), links = DEMON_PIVOT_SMB_CONNECT with the registration of one more SMB child (Pivots.Links + session table; up to 1025), bof = Agent.TaskPrepare(COMMAND_INLINEEXECUTE, HasCallback) + AddJobToQueue as DispatchEvent does, then BEACON output + RAN_OK / COULD_NOT_RUN for every task (BofCallbacks, Tasks, JobQueue incl. mem-file chunks; up to 2049), jobs = the same with sleep tasks and their callbacks (Tasks, JobQueue; up to 2049), sessions = N DEMON_INIT registrations with distinct agent ids (session table; up to 1025), callbacks = one generated layout of the focus family repeated N times, one of its free integer fields (preferably the first = the object id) taking the N ids, every copy answering an outstanding request id of its own (N outstanding ids through AddRequest) or the shared one (up to 4097); the quick tier cuts the pool at what one case affords (8193 only for table appends; ~1 ms per session / link), the thorough tier goes one step further up (8193 / 4097 / 2049). The bulk is cut into requests of PerReq callbacks: all N in ONE request (64-8193 sub-packages in a batch), one per request (up to 1025 requests in the case) or a threshold-adjacent number; via the HTTP engine or External-C2; one in four of the bulks of a state with an SMB child belongs to the child and arrives relayed inside SMB_COMMAND packages of agent 0. The 2-6 ordinary requests of the case focus on the family of the bulk and are placed before it, between its two halves and after it. Oracle at scale: every bulk request returns within 30 s with 200/404 and without panic; at the checkpoints (after the first half, when the count is reached, after ONE MORE object of the same kind sent through the ordinary path with the whole oracle, and after the closing plain check-ins) no session entry is nil and PortFwdsMtx, SocksCliMtx, SocksSvrMtx and QueueMtx of every session can be taken; the closing check-in of the session (which exists) must get the protocol reply 200. CONFIGURATION / ENVIRONMENT (cfg_test.go; labels cfg:<option>=<class>, env:<condition>, http:/method:/target:/proto:/remote:/hdr:/hval:/xff:<class>, also published as the extra counter a_cfg_env_http_label_counts_last_shard): the HTTP listener of the case is built from a GENERATED configuration - half of the cases keep the historical default (nothing configured), the others draw every option (*HTTP).request reads on its own: BehindRedir = profile Demon { TrustXForwardedFor } (three in four), Uris (none, a single empty entry = no filter, one, two incl. a query, escaped + root, 300 bytes), Headers (one, two incl. a value containing \": \", only the ignored Connection / Accept-Encoding, an entry without \": \", an empty value), UserAgent (browser string, short), Response.Headers (plain, value with colons + entry without colon, empty name), plus HostHeader and Methode (carried in the configuration; request() does not read them; Secure is out: the engine is driven in-process); under a configured listener all state-building and bulk requests go out in the shape its filters demand. Two requests in five carry a generated HTTP LAYER as the peer controls it - written to wire bytes and read back by net/http's own request reader plus the pre-handler checks of its server (agx.HTTPReq; self-test against a real http.Server in agx/http_test.go), so the handler sees exactly what a socket delivers, and a request net/http answers by itself is counted (\"net/http refuses\") but not judged: method (POST; GET PUT HEAD OPTIONS DELETE PATCH CONNECT, lower / mixed case, unknown, syntactically invalid), request-target (/, a configured URI, with query / trailing slash / in absolute form, 8193 bytes, 8193-byte query, %00, %2f..%2f, //, /../.., /./, raw NUL, bad escape, absolute form with and without path, *, non-ASCII, fragment), HTTP/1.0 and requests without Host, remote address IPv4 / IPv6 / IPv6 zone, and 0-4 header lines (or 64 / 65 / 1024 / 1025 lines of one name) whose names come from the ones HEAD reads (X-Forwarded-For weighted, User-Agent, Host, Content-Type, Content-Length, Transfer-Encoding, Connection, Accept-Encoding, the configured names) and unknown / invalid names in varying case, with values from the classes empty, blanks only, tab only, one comma, commas only, comma(s) and blanks, lists with a leading / inner / trailing empty member, 8193 bytes, 8193 commas, a 1000-member list, non-ASCII, HTAB inside, a control character, quoted, \": \" inside, the configured value / user agent in the same and in swapped case, IPv4 / IPv4 list / IPv6 / bracketed IPv6 with port / IPv6 zone / IPv4 with port / garbage / unknown / out-of-range octets for X-Forwarded-For, Content-Length = real, 0, real-1, real+1, non-numeric, huge, signed, Transfer-Encoding chunked (with a really chunked body or not) / gzip / identity; half of the layers are built to pass the listener's filters (configured target, lines and user agent before or after the generated lines), and behind a redirector three layers in four carry the X-Forwarded-For line a redirector adds. Environment: time.Local set for the case (UTC, +05:30, -08:00, +12:00, +14:00, -12:00, +05:45; restored); one case in four registers its agents with a kill date in the past / future / now-1s / now+1s and / or working hours that contain / exclude the local time; one case in 64 handles ONE of its requests with RLIMIT_NOFILE lowered to 0, 1 or 2 free descriptors (restored before the oracle reads state) - that case runs in a child process of its own (TestC01Child), because the code under test may end the process: a child that ends without a verdict is the violation process-exit|fd-limit|<last line>; a child that cannot be started or does not finish is counted as no verdict (a_env_fd_limit_no_verdict_last_shard). Oracle under configuration: unchanged - no panic (the in-process ServeHTTP call panics straight into the guard), returns within 30 s, 200/404, mutexes free; what a configuration legitimately changes is modelled per HEAD: a request the router does not hand to request() (method other than POST: gin's or the decoy's 404; an empty path: gin's 301/307 redirect) or that fails the configured header (case-insensitive value, first line of the name, Connection / Accept-Encoding ignored) / URI (exact request-target) / user-agent (exact) filter is rejected traffic: never 200, state untouched; a request whose announced framing delivers other body bytes than the classified ones is judged on panic / termination / status / locks only.",
 		Gen:   gen, Check: check, Classify: classify,
 		Assumptions: []string{
 			"no third-party agent type is registered in generated states, so every non-Demon magic value is invalid traffic",
 			"outbound dials caused by reverse-port-forward callbacks go to 127.0.0.1 or fail fast in the sealed sandbox",
+			"configuration: the listener's front end is modelled per HEAD (router: POST /*endpoint -> request, GET -> decoy, others -> gin 404; filters as request() applies them); options request() does not read (HostHeader, Methode, Hosts, HostRotation, proxy, kill date / working hours of the LISTENER) only ride along; TLS (Secure) is not exercised because the engine is driven in-process; header values are valid UTF-8 so that a case replays byte-exactly from JSON",
 			"scale: operator-side objects (tasks, BOF callbacks, socks clients) are created by the calls the teamserver itself makes for them (TaskPrepare+AddJobToQueue, SocksClientAdd, AddRequest), not through an operator websocket; the socks client end of every bulk socket is a pipe whose other end is drained",
 		},
 	})
